@@ -59,3 +59,55 @@ Proof.
   split; [apply import_export; assumption|]. intros a q. apply initial_validators_are_recorded_set. exact S.
 Qed.
 Print Assumptions C18_reachable_round_trip.
+
+(* ---- relayer module: what InitGenesis rebuilds from the exported voter records ---- *)
+From Goat Require Import Model.Bridge Proofs.BridgeGroup Proofs.BridgeQueueInv.
+From Coq Require Import Permutation.
+
+(* in every state reached by bridge / relayer operations the boarding queues hold exactly the records in
+   status ON_BOARDING / OFF_BOARDING, without repetition ... *)
+Theorem C18_relayer_queues_reachable : forall (H : bytes -> bytes) (chain : bytes) ops s, qinv s -> qinv (bk_run H chain s ops).
+Proof. exact qinv_reachable. Qed.
+Print Assumptions C18_relayer_queues_reachable.
+
+(* ... so the queues InitGenesis rebuilds from the exported records (records in key order, filtered by
+   status: x/relayer/module/genesis.go) are the exported state's queues up to order ... *)
+Theorem C18_relayer_queues_rebuilt s :
+  qinv s ->
+  and (Permutation (rebuild_queue 2%N (map_to_list (r_voter s))) (r_on s))
+      (Permutation (rebuild_queue 3%N (map_to_list (r_voter s))) (r_off s)).
+Proof. exact (rebuilt_queues_are_permutations s). Qed.
+Print Assumptions C18_relayer_queues_rebuilt.
+
+(* ... and none of InitGenesis's structural panics (proposer or a listed voter without a record, duplicate
+   voter, proposer listed as voter) can fire on a state satisfying the group invariant (C16_group_reachable) *)
+Theorem C18_relayer_import_accepts s :
+  ginv s ->
+  is_Some (r_voter s !! r_proposer s) /\
+  (forall a, In a (r_voters s) -> is_Some (r_voter s !! a)) /\
+  List.NoDup (r_voters s) /\ ~ In (r_proposer s) (r_voters s).
+Proof. exact (relayer_import_accepts s). Qed.
+Print Assumptions C18_relayer_import_accepts.
+
+(* non-vacuity: a state with one queued joiner and one queued leaver satisfies the queue invariant *)
+Example C18_queue_example :
+  let vt : gmap N voter := {[ 1%N := mkVoter (VKKey 11) 4 0; 3%N := mkVoter (VKKey 13) 3 0; 5%N := mkVoter (VKKey 15) 2 0 ]} in
+  forall s, r_on s = [5%N] -> r_off s = [3%N] -> r_voter s = vt -> qinv s.
+Proof.
+  intros vt s Eo Ef Et.
+  assert (L : forall a, status_of s a = if (a =? 1)%N then Some 4%N else if (a =? 3)%N then Some 3%N else if (a =? 5)%N then Some 2%N else None).
+  { intros a. unfold status_of. rewrite Et. unfold vt.
+    destruct (N.eqb_spec a 1) as [->|N1]; [reflexivity|].
+    destruct (N.eqb_spec a 3) as [->|N3]; [reflexivity|].
+    destruct (N.eqb_spec a 5) as [->|N5]; [reflexivity|].
+    rewrite !lookup_insert_ne by congruence. rewrite lookup_singleton_ne by congruence. reflexivity. }
+  constructor; rewrite ?Eo, ?Ef.
+  - intros a. rewrite L. cbn [In]. destruct (N.eqb_spec a 1) as [->|]; [split; [intros [|[]]|]; discriminate|].
+    destruct (N.eqb_spec a 3) as [->|]; [split; [intros [|[]]|]; discriminate|].
+    destruct (N.eqb_spec a 5) as [->|]; [split; auto|]. split; [intros [|[]]; congruence|discriminate].
+  - intros a. rewrite L. cbn [In]. destruct (N.eqb_spec a 1) as [->|]; [split; [intros [|[]]|]; discriminate|].
+    destruct (N.eqb_spec a 3) as [->|]; [split; auto|].
+    destruct (N.eqb_spec a 5) as [->|]; [split; [intros [|[]]|]; discriminate|]. split; [intros [|[]]; congruence|discriminate].
+  - repeat constructor. intros [].
+  - repeat constructor. intros [].
+Qed.
